@@ -254,6 +254,132 @@ def simulate(case, rnd=None):
     return tr
 
 
+# --------------------------------------------------------------------------------------------- several links alive at once
+
+def _link_wires(hw, sfx):
+    return dict(s_ready=hw.wire('ser_ready' + sfx), s_valid=hw.wire('ser_valid' + sfx), s_v=hw.wire('ser_v' + sfx, 8),
+                tx=hw.wire('tx' + sfx), pulse=hw.wire('tx_clk_pulse' + sfx), rx_sample=hw.wire('rx_sample' + sfx),
+                desync=hw.wire('desync' + sfx), d_ready=hw.wire('ready_req' + sfx), d_valid=hw.wire('valid_req' + sfx),
+                d_v=hw.wire('c_req' + sfx, 8))
+
+
+def build_group(group):
+    """topology parallel: N independent loop-back links (own ratio each) in ONE HWSystem;
+    duplex: two end points A and B in one HWSystem, each with its own ClockGenerationAndRecovery (tx pulse for its serializer,
+            recovery for its deserializer), link 0 = A->B, link 1 = B->A, independent traffic and pacing;
+    two_systems: one loop-back link in each of two HWSystems, stepped alternately in the same process.
+    Returns (list of simulators, list of wire dicts, one per link)."""
+    import py4hw
+    from py4hw.logic.protocol.uart.serdes import UARTSerializer, UARTDeserializer
+    from py4hw.logic.protocol.uart.clock import ClockGenerationAndRecovery
+    ch = group['channels']
+    sims, Ws = [], []
+    with muted():
+        if group['topology'] == 'duplex':
+            hw = py4hw.HWSystem()
+            W0, W1 = _link_wires(hw, '_ab'), _link_wires(hw, '_ba')
+            # end point A transmits on link 0 and receives link 1; its request is the transmit request of link 0
+            ClockGenerationAndRecovery(hw, 'uart_clock_a', W1['tx'], W1['desync'], W0['pulse'], W1['rx_sample'], ch[1]['fs'], ch[1]['fu'])
+            ClockGenerationAndRecovery(hw, 'uart_clock_b', W0['tx'], W0['desync'], W1['pulse'], W0['rx_sample'], ch[0]['fs'], ch[0]['fu'])
+            UARTDeserializer(hw, 'des_a', W1['tx'], W1['rx_sample'], W1['d_ready'], W1['d_valid'], W1['d_v'], W1['desync'])
+            UARTSerializer(hw, 'ser_a', W0['s_ready'], W0['s_valid'], W0['s_v'], W0['pulse'], W0['tx'])
+            UARTDeserializer(hw, 'des_b', W0['tx'], W0['rx_sample'], W0['d_ready'], W0['d_valid'], W0['d_v'], W0['desync'])
+            UARTSerializer(hw, 'ser_b', W1['s_ready'], W1['s_valid'], W1['s_v'], W1['pulse'], W1['tx'])
+            sims, Ws = [hw.getSimulator()], [W0, W1]
+        else:
+            hw = None
+            for i, c in enumerate(ch):
+                if hw is None or group['topology'] == 'two_systems':
+                    hw = py4hw.HWSystem()
+                    hws = hw
+                W = _link_wires(hw, '_%d' % i)
+                parts = [lambda W=W, c=c, i=i: ClockGenerationAndRecovery(hw, 'uart_clock_%d' % i, W['tx'], W['desync'], W['pulse'], W['rx_sample'], c['fs'], c['fu']),
+                         lambda W=W, i=i: UARTDeserializer(hw, 'des_%d' % i, W['tx'], W['rx_sample'], W['d_ready'], W['d_valid'], W['d_v'], W['desync']),
+                         lambda W=W, i=i: UARTSerializer(hw, 'ser_%d' % i, W['s_ready'], W['s_valid'], W['s_v'], W['pulse'], W['tx'])]
+                k = c.get('order', 0) % 3
+                for f in parts[k:] + parts[:k]:
+                    f()
+                Ws.append(W)
+                if group['topology'] == 'two_systems':
+                    sims.append(hw.getSimulator())
+            if group['topology'] != 'two_systems':
+                sims = [hw.getSimulator()]
+    return sims, Ws
+
+
+class _Chan:
+    """producer / consumer environment and recorder of one link inside a group (same behaviour as in simulate())."""
+
+    def __init__(self, case, W, rnd):
+        self.case, self.W = case, W
+        self.period = realised_period(case['fs'], case['fu'])
+        rd = case['ready']
+        self.ready = Ready(rd['mode'], rd['maxgap'], rnd, case.get('ready_rle'))
+        self.bound_bits = LATENCY_BOUND_BITS + rd.get('stall_bits', 0)
+        self.tail = (self.bound_bits + 4) * self.period
+        self.tr = dict(sv=[], sr=[], sd=[], tx=[], dv=[], dr=[], dd=[], rs=[])
+        self.i = 0
+        self.gap = case['gaps'][0] if case['gaps'] else 0
+        self.offered_since = None
+        self.last_acc = None
+        self.stall = None
+        self.done = False
+        self.a = 0
+
+    def before(self, t):
+        W, data = self.W, self.case['data']
+        if self.i < len(data) and self.gap == 0 and self.stall is None:
+            W['s_valid'].put(1)
+            W['s_v'].put(data[self.i])
+            if self.offered_since is None:
+                self.offered_since = t
+        else:
+            W['s_valid'].put(0)
+            W['s_v'].put(garbage(t))
+            if self.gap > 0:
+                self.gap -= 1
+        W['d_ready'].put(self.ready.next(t))
+        self.a = W['s_valid'].get() & W['s_ready'].get()
+        tr = self.tr
+        tr['sv'].append(W['s_valid'].get()); tr['sr'].append(W['s_ready'].get()); tr['sd'].append(W['s_v'].get())
+        tr['tx'].append(W['tx'].get()); tr['dv'].append(W['d_valid'].get()); tr['dr'].append(W['d_ready'].get())
+        tr['dd'].append(W['d_v'].get()); tr['rs'].append(W['rx_sample'].get())
+
+    def after(self, t):
+        data, gaps = self.case['data'], self.case['gaps']
+        if self.a:
+            self.last_acc = t
+            self.i += 1
+            self.offered_since = None
+            self.gap = gaps[self.i] if self.i < len(gaps) else 0
+        elif self.offered_since is not None and self.stall is None and t - self.offered_since > STALL_BOUND_BITS * self.period:
+            self.stall = dict(byte_index=self.i, offered_at=self.offered_since, gave_up_at=t)
+        if self.stall is not None or (self.i >= len(data) and (self.last_acc is None or t + 1 > self.last_acc + self.tail)):
+            self.done = True
+
+
+def simulate_group(group, rnds=None):
+    """all links of the group are driven and recorded in the same cycles; returns one trace per link."""
+    sims, Ws = build_group(group)
+    chans = [_Chan(c, W, rnds[i] if rnds else None) for i, (c, W) in enumerate(zip(group['channels'], Ws))]
+    t = 0
+    with muted():
+        while not all(c.done for c in chans):
+            for c in chans:
+                c.before(t)
+            for sim in sims:               # two_systems: the systems advance alternately, one edge each
+                sim.clk(1)
+            for c in chans:
+                c.after(t)
+            t += 1
+    out = []
+    for c in chans:
+        tr = c.tr
+        tr['period'], tr['bound_bits'], tr['stall'], tr['cycles'] = c.period, c.bound_bits, c.stall, len(c.tr['tx'])
+        out.append(tr)
+    return out
+
+
 # --------------------------------------------------------------------------------------------- oracles (pure, offline)
 
 def soft_rx(tx, period):
@@ -518,6 +644,61 @@ def plan(tier, seed):
     return specs
 
 
+DUPLEX_PAIRS = [((4, 1), (5, 1)), ((8, 1), (9, 1)), ((6, 1), (6, 1)), ((16, 1), (17, 1)), ((12, 1), (13, 1)), ((17, 4), (9, 2)),
+                ((10, 1), (50e6, 115200 * 40)), ((24, 1), (25, 1)), ((40, 1), (40, 1))]
+PARALLEL_SETS = [[(4, 1), (16, 1)], [(6, 1), (7, 1), (10, 1)], [(5, 1), (40, 1)], [(8, 1), (8, 1)], [(9, 1), (13, 1), (4, 1), (25, 1)],
+                 [(12, 1), (33, 2)]]
+
+
+def plan_groups(tier, seed):
+    """compositions: 2+ links alive at the same time, each with its own traffic, gaps and pacing."""
+    gapmodes = ['none', 'one', 'rand', 'phase', 'mixed']
+    readymodes = ['always', 'rand', 'worst', 'sparse', 'rand_long']
+    groups = []
+    reps = 1 if tier == 'quick' else 40
+    n = 24 if tier == 'quick' else 40
+    for rep_ in range(reps):
+        for k, (ra, rb) in enumerate(DUPLEX_PAIRS):
+            groups.append(dict(topology='duplex', ratios=[ra, rb], n=n))
+        for k, rs in enumerate(PARALLEL_SETS):
+            groups.append(dict(topology='parallel', ratios=rs, n=n))
+        for k, rs in enumerate(PARALLEL_SETS[:4]):
+            groups.append(dict(topology='two_systems', ratios=rs[:2], n=n))
+    for g, grp in enumerate(groups):
+        grp['id'] = g
+        grp['chan_specs'] = [dict(fs=fs, fu=fu, kind=['random', 'toggle', 'special', 'repeats'][(g + i) % 4], n=grp['n'],
+                                  gap=gapmodes[(g + 2 * i) % 5], ready=readymodes[(g + 3 * i) % 5], order=(g + i) % 3, id=100000 + 10 * g + i)
+                             for i, (fs, fu) in enumerate(grp['ratios'])]
+    return groups
+
+
+def expand_group(grp, seed):
+    chans, rnds = [], []
+    for cs in grp['chan_specs']:
+        c, r = expand(cs, seed)
+        chans.append(c)
+        rnds.append(r)
+    return dict(topology=grp['topology'], channels=chans), rnds
+
+
+def run_group(run, group, rnds, agg):
+    try:
+        trs = simulate_group(group, rnds)
+    except Exception as e:
+        run.violation('c17_raises', dict(clause='raises', composition=group['topology']), group, observed=repr(e)[:300],
+                      what='%s of %d links raises %r' % (group['topology'], len(group['channels']), e))
+        return
+    for c, tr in zip(group['channels'], trs):      # make the replay case self-contained
+        c['ready_rle'] = rle(tr['dr'])
+    run.count('compositions')
+    agg['compositions'][group['topology']] = agg['compositions'].get(group['topology'], 0) + 1
+    # cycles in which at least two links had a frame on the line at the same time (the thing a single link never shows)
+    n = min(len(tr['tx']) for tr in trs)
+    agg['overlap_cycles'] += sum(1 for t in range(n) if sum(1 for tr in trs if tr['tx'][t] == 0) >= 2)
+    for i, (c, tr) in enumerate(zip(group['channels'], trs)):
+        account(run, c, tr, agg, group, i)
+
+
 def expand(spec, seed):
     rnd = rng(seed, 'C17', 'case', spec['id'], spec['fs'], spec['fu'])
     period = realised_period(spec['fs'], spec['fu'])
@@ -551,8 +732,19 @@ def shrink_for_replay(case, tr, finding):
     return c
 
 
-def report(run, case, tr, findings):
+def report(run, case, tr, findings, group=None, chan=None):
     fs, fu = case['fs'], case['fu']
+    if group is not None:           # a link that lives beside others: the replay case is the whole composition
+        for f in findings[:2]:
+            key = 'c17_%s_%s' % (f['clause'], f['kind'])
+            fields = dict(clause=f['clause'], kind=f['kind'], relation=f['relation'], ratio_class=ratio_class(fs, fu),
+                          gap_mode=case.get('gap_mode'), ready_mode=case['ready'].get('name', case['ready']['mode']),
+                          composition=group['topology'])
+            run.violation(key, fields, group, expected=f['expected'], observed=f['observed'],
+                          what='%s of %d links, link %d fs/fu=%s/%s (bit period %d clocks) gap=%s ready=%s: %s' % (
+                              group['topology'], len(group['channels']), chan, fs, fu, tr['period'], case.get('gap_mode'),
+                              case['ready'].get('name', case['ready']['mode']), f['what']))
+        return
     for f in findings[:2]:
         key = 'c17_%s_%s' % (f['clause'], f['kind'])
         fields = dict(clause=f['clause'], kind=f['kind'], relation=f['relation'], ratio_class=ratio_class(fs, fu),
@@ -571,6 +763,12 @@ def run_case(run, case, rnd, agg):
         run.violation('c17_raises', dict(clause='raises', ratio_class=ratio_class(fs, fu)), case, observed=repr(e)[:300],
                       what='fs/fu=%s/%s: the loop raises %r' % (fs, fu, e))
         return None
+    return account(run, case, tr, agg)
+
+
+def account(run, case, tr, agg, group=None, chan=None):
+    """judge one recorded link and book what was observed."""
+    fs, fu = case['fs'], case['fu']
     period = tr['period']
     run.count('cycles_simulated', tr['cycles'])
     if tr['stall'] is not None:
@@ -616,7 +814,7 @@ def run_case(run, case, rnd, agg):
         agg['stalled_deliveries'] += sum(1 for x in obs['latencies'] if x > base + 2 * period)
     agg['ready_low_cycles'] += tr['dr'].count(0)
     if findings:
-        report(run, case, tr, findings)
+        report(run, case, tr, findings, group, chan)
     return tr, findings, obs
 
 
@@ -638,6 +836,9 @@ def run_check(run, tier, seed, shard):
                'cycle later it is overwritten, which is the no-back-pressure limit); the take cycle is swept cycle by cycle over that '
                'window (capped at %d bit periods after completion), the deadline of these runs is extended by %d bit periods' % (
                    TAKE_WINDOW_BITS, TAKE_WINDOW_BITS + 1))
+    run.assume('composition classes: several links alive at once (full duplex A<->B with one clock block per end point, N parallel '
+               'loop-back links with different ratios in one HWSystem, two HWSystems stepped alternately); every link is judged by '
+               'its own reference exactly as a single link is -- links share no wire, so they must not influence each other')
     run.assume('"later presented" is judged as bounded progress: delivered within %d bit periods of acceptance' % LATENCY_BOUND_BITS)
     run.assume('the producer keeps v stable while valid is high and unaccepted; v carries garbage while valid is low')
     run.assume('deserializer sampling is judged on the rx_sample wire: pulses inside a frame must lie in the central half of the '
@@ -645,7 +846,7 @@ def run_check(run, tier, seed, shard):
     specs = shard_slice(plan(tier, seed), shard)
     deadline = time.time() + (420 if tier == 'quick' else 2400)
     agg = dict(per_ratio={}, gap_modes={}, ready_modes={}, back_to_back=0, ready_low_cycles=0, stalls=[], latency_hist={}, stalled_deliveries=0,
-               sample_hist={}, acc_ratio={})
+               sample_hist={}, acc_ratio={}, compositions={}, overlap_cycles=0)
     skipped = 0
     for spec in specs:
         if time.time() > deadline:
@@ -662,6 +863,14 @@ def run_check(run, tier, seed, shard):
                             cycles=tr['cycles']))
         if run.too_many:
             break
+    for grp in shard_slice(plan_groups(tier, seed), shard):
+        if time.time() > deadline:
+            skipped += 1
+            continue
+        if run.too_many:
+            break
+        group, rnds = expand_group(grp, seed)
+        run_group(run, group, rnds, agg)
     if skipped:
         run.inconclusive.append('watchdog: %d runs skipped' % skipped)
     if agg['stalls']:
@@ -681,6 +890,8 @@ def run_check(run, tier, seed, shard):
     run.extra['accepted_by_ready_mode'] = agg['ready_modes']
     run.extra['valid_held_acceptances'] = agg['back_to_back']
     run.extra['ready_low_cycles'] = agg['ready_low_cycles']
+    run.extra['compositions_by_topology'] = agg['compositions']
+    run.extra['cycles_with_two_links_mid_frame'] = agg['overlap_cycles']
     run.extra['deliveries_stalled_over_2_bit_periods'] = agg['stalled_deliveries']
     if shard is None:
         post_merge(run, tier, seed)
@@ -695,12 +906,27 @@ def post_merge(run, tier, seed):
         run.inconclusive.append('no back-to-back acceptance was observed')
     if not run.extra.get('deliveries_stalled_over_2_bit_periods'):
         run.inconclusive.append('no delivery was ever stalled for more than 2 bit periods')
+    if not run.extra.get('cycles_with_two_links_mid_frame'):
+        run.inconclusive.append('no cycle was observed in which two links were receiving at the same time')
     if not run.extra.get('ready_low_cycles'):
         run.inconclusive.append('the receiver was never not-ready')
 
 
 def replay(run, case):
     c = case['case']
+    if 'topology' in c:
+        trs = simulate_group(c, None)
+        bad = 0
+        for i, tr in enumerate(trs):
+            findings, obs = judge(tr)
+            print('replay C17 %s link %d fs/fu=%s/%s: accepted %d delivered %d line frames %d' % (
+                c['topology'], i, c['channels'][i]['fs'], c['channels'][i]['fu'], obs['accepted'], obs['delivered'], obs['frames']))
+            for f in findings:
+                print('  ', f['clause'], f['kind'], f['what'])
+            bad += len(findings)
+        if bad:
+            print('VIOLATION property=C17 replay=replayed')
+        return 1 if bad else 0
     tr = simulate(c, None)
     findings, obs = judge(tr)
     print('replay C17 fs/fu=%s/%s bit period %d: accepted %d delivered %d line frames %d' % (
